@@ -78,6 +78,12 @@ def kernel_siblings(ctx, facts_by_cfg):
                               site=facts_by_cfg[cfg].fns[fnp].span, fn=fnp, cfg=cfg)
 
 
+def private_trait(facts, tr):
+    """a crate trait none of whose methods (provided or implemented) can be named from outside the crate"""
+    ms = [f for f in facts.fns.values() if (f.impl_trait == tr or f.in_trait == tr) and not f.x.get('mono_of')]
+    return tr in facts.traits and bool(ms) and not any(f.reachable for f in ms)
+
+
 def find_kernel(facts, adt, kind):
     """private kernel functions found by structure from the public Engine gates:
     mul            = end of the forwarding chain behind <T as Engine>::mul
@@ -99,8 +105,9 @@ def find_kernel(facts, adt, kind):
         return None
     cg = callgraph(facts)
     seen, _ = cg.reachable([gate.path], stop=lambda p: facts.fns.get(p) is not None and facts.fns[p].impl_self_adt != adt)
-    c = [p for p in seen if facts.fns[p].impl_self_adt == adt and not facts.fns[p].impl_trait
-         and len(facts.fns[p].inputs) == 4 and facts.fns[p].inputs[1:] == ['&mut [[u8; 64]]', '&mut [[u8; 64]]', 'u16']]
+    # an inherent method, or the engine's implementation of a crate-private trait the shared schedule is written against
+    c = [p for p in seen if facts.fns[p].impl_self_adt == adt and (not facts.fns[p].impl_trait or private_trait(facts, facts.fns[p].impl_trait))
+         and not facts.fns[p].x.get('mono_of') and len(facts.fns[p].inputs) == 4 and facts.fns[p].inputs[1:] == ['&mut [[u8; 64]]', '&mut [[u8; 64]]', 'u16']]
     return sorted(c)[0] if len(c) == 1 else None
 
 
@@ -297,6 +304,13 @@ def _pure_arg(n):
     return False
 
 
+def _shared_field_read(n):
+    n = core.strip_refs(n)
+    while n.get('k') == 'field':
+        n = core.strip_refs(n['x'])
+    return n.get('k') == 'path' and n.get('res') == 'local' and not (n.get('ty') or '').startswith('&mut')
+
+
 class Expander:
     def __init__(self, facts, adt):
         self.facts = facts
@@ -304,9 +318,22 @@ class Expander:
         self.count = 0
         self.inlined = []
 
+    def getter(self, path, args):
+        """`fn skew(&self) -> &Skew { self.skew }` of the engine (inherent or of a crate-private trait): the field it reads"""
+        g = self.facts.fns.get(path) if path else None
+        if g is None or g.impl_self_adt != self.adt or not g.hir or len(args) != 1 or (g.impl_trait and not private_trait(self.facts, g.impl_trait)):
+            return None
+        se = core.simple_expr_fn(g)
+        if se is None or len(se[0]) != 1:
+            return None
+        v = core.strip_refs(se[1])
+        if v.get('k') == 'field' and core.strip_refs(v.get('x', {})).get('k') == 'path' and core.strip_refs(v['x']).get('id') == se[0][0]:
+            return v
+        return None
+
     def inlinable(self, path, args):
         g = self.facts.fns.get(path) if path else None
-        if g is None or g.impl_self_adt != self.adt or g.impl_trait or not g.hir or not takes_shards(g):
+        if g is None or g.impl_self_adt != self.adt or (g.impl_trait and not g.x.get('mono_of')) or not g.hir or not takes_shards(g):
             return None
         params = g.hir.get('params', [])
         if len(params) != len(args):
@@ -324,9 +351,19 @@ class Expander:
             return [self.expr(x, depth) for x in n]
         if not isinstance(n, dict):
             return n
-        if n.get('k') == 'mcall' and depth < 6:
-            args = [n['recv']] + list(n['args'])
-            g = self.inlinable(n.get('path'), args)
+        callp = cargs = None
+        if n.get('k') == 'mcall':
+            callp, cargs = n.get('path'), [n['recv']] + list(n['args'])
+        elif n.get('k') == 'call' and isinstance(n.get('f'), dict) and n['f'].get('k') == 'path' and n['f'].get('res') != 'local':
+            callp, cargs = n['f'].get('path'), list(n['args'])      # a free (generic) function instantiated for this engine
+        if callp and depth < 6:
+            args = cargs
+            fld = self.getter(callp, args)
+            if fld is not None:
+                out = dict(fld)
+                out['x'] = self.expr(args[0], depth)
+                return out
+            g = self.inlinable(callp, args)
             if g is not None:
                 from .c05 import subst_hir
                 self.count += 1
@@ -379,6 +416,11 @@ class Expander:
                     and isinstance(s.get('init'), dict) and s['init'].get('k') == 'path' and s['init'].get('res') == 'local' \
                     and s['init']['id'] >= 1000000 and s['pat'].get('ty') in ('usize', 'u16', 'u32', 'u64', 'bool', 'u8'):
                 ren[s['pat']['id']] = s['init']
+                continue
+            if s['k'] == 'let' and 'else' not in s and s.get('pat', {}).get('k') == 'bind' and s['pat'].get('mode', '').endswith('Not)') \
+                    and isinstance(s.get('init'), dict) and (s['pat'].get('ty') or '').startswith('&') and not (s['pat'].get('ty') or '').startswith('&mut') \
+                    and _shared_field_read(s['init']):
+                ren[s['pat']['id']] = s['init']     # `let skew = engine.skew;`: a shared reference read through a shared borrow cannot change
                 continue
             keep.append(s)
         if ren:
@@ -614,6 +656,7 @@ def schedules(ctx, facts, cfg):
     nsched = sum(1 for x in ref if x[2] is not None)
     ctx.floor(R, 4, nsched, 'schedule functions of %s (cfg %s)' % (ref_adt, cfg), cfg=cfg)
     ref_inl = None
+    ref_deep = None
     for adt, ff in sorted(forms.items()):
         if adt == ref_adt:
             continue
@@ -642,6 +685,21 @@ def schedules(ctx, facts, cfg):
                 ctx.ok(R, '%s~%s:inlined@%s' % (adt.split('::')[-1], ref_adt.split('::')[-1], cfg),
                        'per-function forms differ (%s) but the forms with the schedule helpers inlined (%d in %s, %d in %s) are identical'
                        % (viol[0][0], len(inl[1]), adt.split('::')[-1], len(ref_inl[1]), ref_adt.split('::')[-1]))
+                continue
+            # third opinion: deep normal forms (pure lets substituted, loops in count form, linear index arithmetic)
+            try:
+                from . import schednf
+                if ref_deep is None:
+                    ref_deep = schednf.deep_form(facts, ref_adt, entries_of[ref_adt])
+                deep = schednf.deep_form(facts, adt, entries_of[adt])
+                same = len(ref_deep[0]) == len(deep[0]) and all(first_diff(a[1], b[1]) is None for a, b in zip(ref_deep[0], deep[0]))
+            except Exception as e:      # the third opinion can only add acceptances
+                same = False
+                ctx.note('deep schedule form of %s not available: %s: %s' % (adt, type(e).__name__, e))
+            if same:
+                ctx.ok(R, '%s~%s:deep@%s' % (adt.split('::')[-1], ref_adt.split('::')[-1], cfg),
+                       'written differently (%s) but equal after expanding helpers, substituting pure lets, putting loops in count form and normalising index arithmetic linearly'
+                       % viol[0][0])
                 continue
             for key, msg, kw in viol:
                 ctx.violation(R, key, msg, cfg=cfg, **kw)
